@@ -93,6 +93,32 @@ def own_generator_cases(rnd, wd):
                     cols[thin] = numpy.array(s.numpy)
             if cols[t].shape != cols[1][:, ::t].shape or cols[t].tobytes() != cols[1][:, ::t].tobytes():
                 out.append(("thinning", f"{kind}, seed={sd}, {be}: the run with thinning {t} is not every {t}-th column of the unthinned run with the same seed"))
+                continue
+            # the same thinned run stopped by Ctrl-C somewhere off the thinning grid: every column it stored is still the state after
+            # proposal j*t, i.e. the file is a leading part of the complete thinned run (how many columns is C08's subject)
+            stop_at = rnd.randint(3, 10 * t) * (4 if kind == "hmc" else 1) + 1
+
+            class Stopping(type(target)):
+                calls = 0
+
+                def misfit(self_, m):
+                    type(self_).calls += 1
+                    if type(self_).calls == stop_at:
+                        raise KeyboardInterrupt()
+                    return super().misfit(m)
+            stopping = Stopping(numpy.array([[0.5], [-0.25]]), numpy.array([[1.0], [2.0]]))
+            f = os.path.join(wd, f"own_stopped.{be}")
+            with contextlib.redirect_stdout(io.StringIO()), numpy.errstate(all="ignore"):
+                cls(seed=sd).sample(f, stopping, proposals=12 * t, online_thinning=t, initial_model=numpy.zeros((2, 1)), overwrite_existing_file=True,
+                                    disable_progressbar=True, **kw)
+            try:
+                with hmclab.Samples(f) as s:
+                    got = numpy.array(s.numpy)
+            except Exception:  # noqa  (a run stopped before its first stored column: nothing to compare)
+                got = None
+            if got is not None and (got.shape[1] > cols[t].shape[1] or got.tobytes() != cols[t][:, :got.shape[1]].tobytes()):
+                out.append(("thinning-interrupted", f"{kind}, seed={sd}, {be}, thinning {t}, Ctrl-C at misfit call {stop_at}: the {got.shape[1]} stored columns are not the leading "
+                            f"columns of the complete thinned run (a stored column is not the state after proposal j*t)"))
     numpy.seterr(all="warn")
     return out
 
